@@ -1104,7 +1104,7 @@ var reservedLookingNames = []string{"x5c", "io.cncf.notary.signingAgent", "io.cn
 // mutation families: many deviations of one kind (one per name / spelling / offset / payload)
 var mutFamilies = []string{"ext:reserved-looking-name:", "ext:reserved-looking-name-crit:", "ext:fold-twin-valid:", "ext:fold-twin:", "expiry:equal-", "expiry:earlier-1s-",
 	"expiry:later-1s-", "payload:claim-names-", "ext:reserved-looking-text-label:", "ext:reserved-looking-text-label-crit:", "ext:registered-int-label:",
-	"ext:text-label-spelling-int-", "ext-reserved-looking-name:", "ext-spec-key-twin:", "ext-spec-key-twin-valid-value:", "payload-claim-names-", "st-zone:", "payload-trailing-", "ext-spec-key:",
+	"ext:text-label-spelling-int-", "ext-reserved-looking-name:", "ext-spec-key-twin:", "ext-spec-key-twin-valid-value:", "ext-dup-key-values-", "ext-dup-int-key-values-", "payload-claim-names-", "st-zone:", "payload-trailing-", "ext-spec-key:",
 	"ext-spec-int:", "ext-int-key:", "st-bound-zone:", "chain:"}
 
 func familyOf(name string) string {
